@@ -1333,7 +1333,9 @@ main(int argc, char *argv[])
             /* the user's grammar, compiled but not yet touched by the search (no silences/alternates) */
             j = jsgf_parse_string(text, NULL);
             if (j) {
-                jsgf_rule_t *rule = jsgf_get_public_rule(j);
+                /* the rule whose language counts: the configured start rule if there is one, else the public rule */
+                const char *top = config_str(d->config, "toprule");
+                jsgf_rule_t *rule = top ? jsgf_get_rule(j, top) : jsgf_get_public_rule(j);
                 fsg_model_t *g = rule ? jsgf_build_fsg(j, rule, d->lmath, (float32)config_float(d->config, "lw")) : NULL;
                 ret = decoder_set_jsgf_string(d, text);
                 dump_fsg(g, "jsgf", ret);
@@ -1345,6 +1347,16 @@ main(int argc, char *argv[])
                 dump_fsg(NULL, "jsgf", ret);
             }
             free(text);
+        } else if (!strcmp(cmd, "toprule")) { /* toprule <hex name> | toprule - : the configured start rule */
+            if (sscanf(line, "%*s %s", arg) != 1)
+                return 3;
+            if (!strcmp(arg, "-"))
+                config_set_str(d->config, "toprule", NULL);
+            else {
+                char *nm = vt_unhex(arg, NULL);
+                config_set_str(d->config, "toprule", nm);
+                free(nm);
+            }
         } else if (!strcmp(cmd, "jsgffile")) { /* jsgffile <path>: decoder_set_jsgf_file */
             jsgf_t *j;
             int ret;
